@@ -240,9 +240,11 @@ def drop_non_functional(exe, lines):
     return [l for i, l in enumerate(lines) if i not in bad], len(bad)
 
 
-def prescreen(exe, lines, chunk=64, chunk_timeout=90, single_timeout=15):
+def prescreen(exe, lines, chunk=64, chunk_timeout=40, single_timeout=4, max_hung=3):
     """Run the op lines once in chunks with a time limit, so that a run on which the (possibly
     modified) solver does not terminate cannot block the whole check.
+    After `max_hung` such runs the screening stops (the remaining lines are not run at all): the check
+    is going to fail anyway.
     → (kept lines, number of NaN-injection runs dropped as not replayable, hung op lines)."""
     import subprocess
     if not exe:
@@ -257,11 +259,16 @@ def prescreen(exe, lines, chunk=64, chunk_timeout=90, single_timeout=15):
             return None
 
     for i in range(0, len(lines), chunk):
+        if len(hung) >= max_hung:
+            break
         part = lines[i:i + chunk]
         out = run(part, chunk_timeout)
         if out is None:
             out = []
             for l in part:
+                if len(hung) + sum(1 for o in out if o is None) >= max_hung:
+                    part = part[:len(out)]
+                    break
                 o = run([l], single_timeout)
                 out.append(o[0] if o else None)
         for l, o in zip(part, out):
